@@ -549,7 +549,7 @@ func checkCmd(opts *RunOpts, args []string) int {
 	}
 	if run.NegRan {
 		_, vl, cv := boundedListVerdict(opts, prop, known, "bounded.negotiation.partial_acceptance", "none.txt", run.NegFailing, run.NegTotal,
-			"trigger T and three states X1..X3 (all Auto, or all plain and added manually), every veto mask over their Enter / T->Xi state-state handlers, three state orders",
+			"trigger T and three states X1..X3 (all Auto, or all plain and added manually), every veto mask over their Enter / T->Xi state-state handlers, three state orders; CanAdd / CanRemove against the mutation issued next (inactive states with Enter / AnyEnter vetoes, already active states with self-handler vetoes, Exit vetoes)",
 			"", "end with the wrong active set or result (auto states are judged one by one; a manual mutation is all-or-nothing)", nil)
 		if vl != "" {
 			violations = append(violations, vl)
@@ -568,7 +568,7 @@ func checkCmd(opts *RunOpts, args []string) int {
 	if run.TRan {
 		_, vl, cv := boundedListVerdict(opts, prop, known, "bounded.tracers.stream", "none.txt", run.TFailing, run.TTotal,
 			"states A, B (Multi), C (Removes A); every history of up to 3 mutations over Add/Remove/Set of each state, Add{A,B}, CanAdd{C}; variants: no handlers, struct-bound final handlers returning values, vetoing CEnter; two tracers bound",
-			"", "break the tracer stream (Init, Start, [Finals], End once and in order per transition, no interleaving, time-before = previous time-after, canceled and check-only ones report no change, last time-after = final machine time, both tracers see the same)", nil)
+			"", "break the tracer stream (Init, Start, [Finals], End once and in order per transition, no interleaving, time-before = previous time-after, canceled and check-only ones report no change, last time-after = final machine time, both tracers see the same, the ClockBefore()/ClockAfter() accessors read at every hook agree with the transition's times)", nil)
 		if vl != "" {
 			violations = append(violations, vl)
 		}
